@@ -999,4 +999,223 @@ theorem fok_packetsLoop (o : Opts) (loopAt : Option Path) (slots : List (Option 
           · rw [if_neg hs]
             exact fok_pure _ _ hU
 
+/-- `fokw [h₁, …]`: a production whose branches all end in one of the given facts (or fail with a real code); the binds in
+    between are reports and store operations -/
+syntax "fokw" "[" term,* "]" : tactic
+macro_rules
+  | `(tactic| fokw [$hs,*]) => `(tactic| repeat (first
+      | exact fok_fail _ _ (by decide)
+      | (first $[| exact $hs ..]*)
+      | refine fok_bind (fun _ => True) _ _ _ (fok_report _ _ _) ?_
+      | refine fok_bind (fun _ => True) _ _ _ fok_getCif ?_
+      | refine fok_bind (fun _ => True) _ _ _ (fok_setCif _) ?_
+      | refine fok_bind (fun _ => True) _ _ _ (fok_fail _ _ (by decide)) ?_
+      | apply fok_ite
+      | intro _
+      | split))
+
+theorem fok_parseLoop (o : Opts) (fuel : Nat) (s : PS) (cont : Option Path) (hf : 2 * U s + 2 ≤ fuel) :
+    FOk (fun s' => U s' ≤ U s) (parseLoop o fuel s cont) := by
+  unfold parseLoop
+  simp only [bind_eq, pure_eq, pure_bind']
+  refine fok_bind _ _ _ _ (fok_headerLoop o cont fuel s [] (by omega)) ?_
+  rintro ⟨slots, s1⟩ (hU : U s1 ≤ U s)
+  simp only
+  have leaf : ∀ loopAt k, FOk (fun s' => U s' ≤ U s) (packetsLoop o loopAt slots fuel s1 k) :=
+    fun loopAt k => fok_weaken _ _ _ (fok_packetsLoop o loopAt slots fuel s1 k (by omega))
+      (fun r (hr : U r ≤ U s1) => by show U r ≤ U s; omega)
+  have ret : FOk (fun s' => U s' ≤ U s) (P.pure s1) := fok_pure _ _ hU
+  fokw [leaf, ret]
+
+theorem fok_createIn (o : Opts) (isBlock : Bool) (parent : Path) (code : Str) (line col : Nat) :
+    FOk (fun _ => True) (createIn o isBlock parent code line col) := by
+  unfold createIn
+  simp only [bind_eq, pure_eq, pure_bind']
+  fokq []
+
+/-! #### containers -/
+
+/-- token types on which the loop of parse_container may return without consuming the token -/
+def quiet (isBlock : Bool) (ty : TokType) : Bool :=
+  ty == .blockHead || ty == .end_ || (ty == .frameHead && !isBlock)
+
+/-- what parse_container does to the potential: it never grows, and it drops unless the first token is one of `quiet` -/
+def contPost (s : PS) (isBlock : Bool) (s' : PS) : Prop :=
+  U s' ≤ U s ∧ (∀ t, s.tok = some t → quiet isBlock t.ty = false → U s' + 1 ≤ U s)
+
+def ContOk (o : Opts) (fuel : Nat) : Prop :=
+  (∀ s cont isBlock, 2 * U s + 3 ≤ fuel → FOk (contPost s isBlock) (parseContainer o fuel s cont isBlock)) ∧
+  (∀ s cont isBlock, 2 * U s + 2 ≤ fuel → FOk (contPost s isBlock) (elemsLoop o fuel s cont isBlock))
+
+theorem elemsLoop_step (o : Opts) (fuel : Nat) (ih : ContOk o fuel) (s : PS) (cont : Option Path) (isBlock : Bool)
+    (hf : 2 * U s + 2 ≤ fuel + 1) : FOk (contPost s isBlock) (elemsLoop o (fuel + 1) s cont isBlock) := by
+  obtain ⟨hc, he⟩ := ih
+  rw [elemsLoop]
+  simp only [bind_eq, pure_eq, pure_bind']
+  refine fok_bind _ _ _ _ (fok_nextTok' o s) ?_
+  rintro ⟨t, s1⟩ ⟨⟨hU, htok⟩, hid⟩
+  simp only at hU htok hid ⊢
+  have hcs := U_consume s1
+  rw [htok] at hcs
+  -- the loop goes on from any state whose potential has dropped
+  have again : ∀ s2, U s2 + 1 ≤ U s1 → FOk (contPost s isBlock) (elemsLoop o fuel s2 cont isBlock) := by
+    intro s2 h2
+    refine fok_weaken _ _ _ (he s2 cont isBlock (by omega)) ?_
+    intro r hr
+    exact ⟨by have := hr.1; omega, fun _ _ _ => by have := hr.1; omega⟩
+  have ret1 : quiet isBlock t.ty = true → FOk (contPost s isBlock) (P.pure s1) := by
+    intro hq
+    refine fok_pure _ _ ⟨hU, fun t0 ht0 hq0 => ?_⟩
+    obtain ⟨e, _⟩ := hid t0 ht0
+    subst e; rw [hq] at hq0; cases hq0
+  have retc : 1 ≤ pw (some t) → FOk (contPost s isBlock) (P.pure (consume s1)) :=
+    fun hp => fok_pure _ _ ⟨by omega, fun _ _ _ => by omega⟩
+  have againc : 1 ≤ pw (some t) → FOk (contPost s isBlock) (elemsLoop o fuel (consume s1) cont isBlock) :=
+    fun hp => again _ (by omega)
+  have fPC : 1 ≤ pw (some t) → ∀ c, FOk (contPost s isBlock)
+      ((parseContainer o fuel (consume s1) c false).bind fun s => elemsLoop o fuel s cont isBlock) := by
+    intro hp c
+    refine fok_bind _ _ _ _ (hc (consume s1) c false (by omega)) ?_
+    intro r hr
+    exact again r (by have := hr.1; omega)
+  have fPL : 1 ≤ pw (some t) → FOk (contPost s isBlock)
+      ((parseLoop o fuel (consume s1) cont).bind fun s => elemsLoop o fuel s cont isBlock) := by
+    intro hp
+    refine fok_bind _ _ _ _ (fok_parseLoop o fuel (consume s1) cont (by omega)) ?_
+    intro r (hr : U r ≤ U (consume s1))
+    exact again r (by omega)
+  have fPIc : 1 ≤ pw (some t) → ∀ nm, FOk (contPost s isBlock)
+      ((parseItem o fuel (consume s1) cont nm).bind fun s => elemsLoop o fuel s cont isBlock) := by
+    intro hp nm
+    refine fok_bind _ _ _ _ (fok_parseItem o fuel (consume s1) cont nm (by omega)) ?_
+    intro r hr
+    exact again r (by have := hr.1; omega)
+  have fPIv : isValueStart t.ty = true → FOk (contPost s isBlock)
+      ((parseItem o fuel s1 cont none).bind fun s => elemsLoop o fuel s cont isBlock) := by
+    intro hvs
+    refine fok_bind _ _ _ _ (fok_parseItem o fuel s1 cont none (by omega)) ?_
+    intro r hr
+    exact again r (hr.2 t htok (Or.inr hvs))
+  have fPIp : isKeyTok t.ty = true → FOk (contPost s isBlock)
+      ((parseItem o fuel (pushColon s1 t (altOf t.ty)).2 cont none).bind fun s => elemsLoop o fuel s cont isBlock) := by
+    intro hk
+    obtain ⟨hpu, t', ht', hvs', _⟩ := U_pushColon s1 t htok hk
+    refine fok_bind _ _ _ _ (fok_parseItem o fuel _ cont none (by omega)) ?_
+    intro r hr
+    exact again r (by have := hr.2 t' ht' (Or.inr hvs'); omega)
+  split
+  · -- BLOCK_HEAD
+    rename_i heq
+    have hq : quiet isBlock t.ty = true := by rw [heq]; rfl
+    have hfact0 := ret1 hq
+    fokw [hfact0]
+  · -- FRAME_HEAD
+    rename_i heq
+    have hp := pw_pos t (by rw [heq]; decide)
+    split
+    · exact fPC hp none
+    · by_cases h1 : o.maxFrameDepth = 0 ∧ (!isBlock) = true
+      · rw [if_pos h1]
+        have hq : quiet isBlock t.ty = true := by rw [heq]; simp [quiet, h1.2]
+        have hfact0 := ret1 hq
+        fokw [hfact0]
+      · rw [if_neg h1]
+        by_cases h2 : o.maxFrameDepth = 1 ∧ (!isBlock) = true
+        · rw [if_pos h2]
+          have hq : quiet isBlock t.ty = true := by rw [heq]; simp [quiet, h2.2]
+          have hfact0 := ret1 hq
+          fokw [hfact0]
+        · rw [if_neg h2]
+          have fCr : ∀ (parent : Path) (k : Path → P PS), (∀ fp, FOk (contPost s isBlock) (k fp)) →
+              FOk (contPost s isBlock) ((createIn o false parent (cstr t.text) s1.scan.line (s1.scan.col - t.text.length)).bind k) :=
+            fun parent k hk => fok_bind _ _ _ _ (fok_createIn o _ _ _ _ _) (fun fp _ => hk fp)
+          by_cases h3 : o.maxFrameDepth = 0
+          · rw [if_pos h3]
+            refine fok_bind _ _ _ _ (fok_report _ _ _) (fun _ _ => ?_)
+            exact fCr _ _ (fun fp => fPC hp (some fp))
+          · rw [if_neg h3]
+            exact fCr _ _ (fun fp => fPC hp (some fp))
+  · -- FRAME_TERM
+    rename_i heq
+    have hp := pw_pos t (by rw [heq]; decide)
+    have hfact0 := againc hp
+    have hfact1 := retc hp
+    fokw [hfact0, hfact1]
+  · -- LOOPKW
+    rename_i heq
+    have hp := pw_pos t (by rw [heq]; decide)
+    exact fPL hp
+  · -- NAME
+    rename_i heq
+    have hp := pw_pos t (by rw [heq]; decide)
+    have fIE : ∀ (path : Path) (k : Bool → P PS), (∀ e, FOk (contPost s isBlock) (k e)) →
+        FOk (contPost s isBlock) ((itemExists o path (cstr t.text)).bind k) :=
+      fun path k hk => fok_bind _ _ _ _ (fok_itemExists o _ _) (fun e _ => hk e)
+    have hfact0 := fPIc hp
+    split
+    · fokw [hfact0]
+    · refine fIE _ _ (fun e => ?_)
+      have hfact0 := fPIc hp
+      fokw [hfact0]
+  · -- KEY
+    rename_i heq
+    have hk : isKeyTok t.ty = true := by rw [heq]; rfl
+    have hfact0 := fPIp hk
+    fokw [hfact0]
+  · -- TKEY
+    rename_i heq
+    have hk : isKeyTok t.ty = true := by rw [heq]; rfl
+    have hfact0 := fPIp hk
+    fokw [hfact0]
+  · rename_i heq; have hvs : isValueStart t.ty = true := by rw [heq]; rfl
+    have hfact0 := fPIv hvs
+    fokw [hfact0]
+  · rename_i heq; have hvs : isValueStart t.ty = true := by rw [heq]; rfl
+    have hfact0 := fPIv hvs
+    fokw [hfact0]
+  · rename_i heq; have hvs : isValueStart t.ty = true := by rw [heq]; rfl
+    have hfact0 := fPIv hvs
+    fokw [hfact0]
+  · rename_i heq; have hvs : isValueStart t.ty = true := by rw [heq]; rfl
+    have hfact0 := fPIv hvs
+    fokw [hfact0]
+  · rename_i heq; have hvs : isValueStart t.ty = true := by rw [heq]; rfl
+    have hfact0 := fPIv hvs
+    fokw [hfact0]
+  · -- CTABLE
+    rename_i heq
+    have hp := pw_pos t (by rw [heq]; decide)
+    have hfact0 := againc hp
+    fokw [hfact0]
+  · -- CLIST
+    rename_i heq
+    have hp := pw_pos t (by rw [heq]; decide)
+    have hfact0 := againc hp
+    fokw [hfact0]
+  · -- END
+    rename_i heq
+    have hq : quiet isBlock t.ty = true := by rw [heq]; rfl
+    have hfact0 := ret1 hq
+    fokw [hfact0]
+  · -- ERROR
+    exact fok_fail _ _ (by decide)
+
+theorem parseContainer_step (o : Opts) (fuel : Nat) (ih : ContOk o fuel) (s : PS) (cont : Option Path) (isBlock : Bool)
+    (hf : 2 * U s + 3 ≤ fuel + 1) : FOk (contPost s isBlock) (parseContainer o (fuel + 1) s cont isBlock) := by
+  obtain ⟨hc, he⟩ := ih
+  rw [parseContainer]
+  simp only [bind_eq, pure_eq, pure_bind']
+  refine fok_bind _ _ _ _ (he s cont isBlock (by omega)) ?_
+  intro r hr
+  have ret : FOk (contPost s isBlock) (P.pure r) := fok_pure _ _ hr
+  fokw [ret]
+
+theorem containers_ok (o : Opts) : ∀ fuel, ContOk o fuel := by
+  intro fuel
+  induction fuel with
+  | zero => refine ⟨?_, ?_⟩ <;> intros <;> omega
+  | succ fuel ih =>
+    exact ⟨fun s cont isBlock h => parseContainer_step o fuel ih s cont isBlock h,
+           fun s cont isBlock h => elemsLoop_step o fuel ih s cont isBlock h⟩
+
 end CifModel.Model.Parser
